@@ -74,6 +74,7 @@ pub fn query_with_timeout_and_extra_settings(
             protocols::unreal2::query(
                 &socket_addr,
                 &extra_settings
+                    .or_else(|| Option::from(game.request_settings.clone()))
                     .map(ExtraRequestSettings::into)
                     .unwrap_or_default(),
                 timeout_settings,
